@@ -14,7 +14,7 @@ GARBAGE = {"OUT1": 99.0, "OUT2": 1, "OUT3": 77.0}      # what the device holds b
 SAFE = {"OUT1": 0.0, "OUT2": "Closed"}                  # tag-level safe values (OUT3 has none)
 SAFE_HW = {"OUT1": 0.0, "OUT2": 0}                      # the same after from_tag conversion
 OUTPUTS = ["OUT1", "OUT2", "OUT3"]
-UOD_COMMANDS = ["Set1", "Set3", "Ramp", "LongA", "LongB", "LongC", "Valve", "Boom", "BoomInit", "BadArgs", "Spin"]
+UOD_COMMANDS = ["Set1", "Set3", "Ramp", "LongA", "LongB", "LongC", "Valve", "Boom", "BoomInit", "BadArgs", "Spin", "Churn", "OpenValve", "Full"]
 
 
 class NotArchivedTag(Tag):
@@ -144,6 +144,23 @@ def build_probe_uod(hw: SimHardware, plog: ProbeLog, clock_read: Callable[[], fl
         plog.add("exec", cmd, "")
         cmd.set_complete()
 
+    def churn(cmd: UodCommand, **kw) -> None:
+        # like Spin, but long enough to be still running when a run that was started after it is stopped
+        plog.add("exec", cmd, "")
+        if cmd.get_iteration_count() + 1 >= 14:
+            cmd.set_complete()
+
+    def open_valve(cmd: UodCommand, **kw) -> None:
+        # command buttons that drive an output with a safe value (no arguments, so a user can press them)
+        plog.add("exec", cmd, "")
+        cmd.context.tags["OUT2"].set_value("Open", clock_read())
+        cmd.set_complete()
+
+    def full(cmd: UodCommand, **kw) -> None:
+        plog.add("exec", cmd, "")
+        cmd.context.tags["OUT1"].set_value(100.0, clock_read())
+        cmd.set_complete()
+
     def bad_args_parse(args: str):
         return None
 
@@ -194,6 +211,9 @@ def build_probe_uod(hw: SimHardware, plog: ProbeLog, clock_read: Callable[[], fl
         .with_command("BoomInit", noop_exec, boom_init, fin_fn, arg_parse_fn=None)
         .with_command("BadArgs", noop_exec, init_fn, fin_fn, arg_parse_fn=bad_args_parse)
         .with_command("Spin", spin, init_fn, fin_fn, arg_parse_fn=None)
+        .with_command("Churn", churn, init_fn, fin_fn, arg_parse_fn=None)
+        .with_command("OpenValve", open_valve, init_fn, fin_fn, arg_parse_fn=None)
+        .with_command("Full", full, init_fn, fin_fn, arg_parse_fn=None)
         .with_command_overlap(["LongA", "LongB"])
         .with_command_overlap(["LongB", "LongC"])       # LongB is declared in two overlap groups
         .with_process_value("PV1")
